@@ -34,6 +34,7 @@ type Engine struct {
 	accessed       map[string][]*types.Var    // struct type key -> fields the repository reads or writes
 	tier           string
 	updatingLedger bool
+	noRetry        map[string]bool // obligation groups recorded as known findings: expected to fail
 	timeoutMs      int
 	verbose        bool
 	tmpdir         string
